@@ -38,13 +38,16 @@ static void build_file(const scn_t* s) {
         f.col[0].ptype = s->shape == 4 ? PT_INT32 : PT_INT64; f.enc[0] = s->shape == 4 ? ENC_RLE_DICT : ENC_PLAIN; f.col[1].ptype = PT_INT64; f.enc[1] = ENC_PLAIN; if (s->shape == 5) f.pattern = 3;
         ref_buf_free(&IMG); ref_buf_init(&IMG); ref_arena_free(&RA); static ref_coldata colsb[4]; if (rf_build(&RA, &f, &IMG, NULL, 0, NULL, colsb)) mc_harness_error("reference writer failed");
         TOTAL_ROWS = f.N; if (FD >= 0) close(FD); FD = memfd_create("c07", 0); if (FD < 0 || write(FD, IMG.p, IMG.n) != (ssize_t)IMG.n) mc_harness_error("memfd"); snprintf(PATH, sizeof PATH, "/proc/self/fd/%d", FD); return; }
+    int damaged = s->shape == 6; int shape = s->shape >= 6 ? 0 : s->shape; (void)shape;
     f.ncols = s->shape == 1 ? 2 : 3; f.N = 12; f.nrg = s->shape == 2 ? 2 : 1; f.codec = s->codec; f.crc = true; f.dict_offset_present = true;
     f.col[0].ptype = PT_INT32; f.col[0].opt = 0; f.col[1].ptype = PT_INT64; f.col[1].opt = 1; f.mask[1] = 0x492; f.col[2].ptype = s->shape == 3 ? PT_BYTE_ARRAY : PT_DOUBLE; f.col[2].opt = s->shape == 3; f.mask[2] = 0x0c1;
     if (s->shape == 3) { f.level_form = REF_H_BP_ONLY; f.index_form = REF_H_MIXED; }      /* shape 3: two nullable columns whose levels are bit-packed groups (shared decoder scratch would be touched by two threads); shapes 0-2: RLE runs */
     for (int c = 0; c < f.ncols; c++) { f.npages[c] = 2; f.page_levels[c][0] = 6; f.page_levels[c][1] = 6; f.enc[c] = (c == 1 && s->shape != 1) ? ENC_RLE_DICT : ENC_PLAIN; }
     ref_buf_free(&IMG); ref_buf_init(&IMG); ref_arena_free(&RA);
-    static ref_coldata cols[8]; if (rf_build(&RA, &f, &IMG, NULL, 0, NULL, cols)) mc_harness_error("reference writer failed");
+    static ref_coldata cols[8]; static ref_pageinfo pgs[32]; int npg = 0; if (rf_build(&RA, &f, &IMG, pgs, 32, &npg, cols)) mc_harness_error("reference writer failed");
     TOTAL_ROWS = (int64_t)f.N * f.nrg;
+    if (damaged) { int hit = -1; for (int p = 0; p < npg; p++) if (pgs[p].leaf == 2 && pgs[p].page_type != 2 && pgs[p].body_len > 0) hit = p;      /* the last data page of the third column: one byte of its body changed, its CRC no longer matches */
+        if (hit < 0) mc_harness_error("no page to damage"); IMG.p[pgs[hit].body_off + pgs[hit].body_len / 2] ^= 0x10; TOTAL_ROWS = -1; }
     if (FD >= 0) close(FD);
     FD = memfd_create("c07", 0); if (FD < 0 || write(FD, IMG.p, IMG.n) != (ssize_t)IMG.n) mc_harness_error("memfd");
     snprintf(PATH, sizeof PATH, "/proc/self/fd/%d", FD);
@@ -52,6 +55,7 @@ static void build_file(const scn_t* s) {
 
 /* runs in the execution process, on a scheduler thread: open, batch-read everything, close */
 typedef struct { const scn_t* s; int nthreads_cfg; uint64_t hash; char detail[160]; int idx; } rd_job;
+void GOMP_critical_start(void); void GOMP_critical_end(void);
 static void read_all(rd_job* j) {
     const scn_t* s = j->s; uint64_t h = 0xc07; char* d = j->detail; size_t dn = 0; d[0] = 0;
     int mode = s->mode == 3 ? (j->idx % 2 == 0 ? 1 : 0) : s->mode;
@@ -63,7 +67,8 @@ static void read_all(rd_job* j) {
     if (!br) { snprintf(d, 160, "create:%d", err.code); j->hash = mc_mix(h, 77 + (uint64_t)err.code); carquet_reader_close(rd); return; }
     int64_t rows_total = 0;
     for (int guard = 0; guard < 64; guard++) {
-        carquet_row_batch_t* b = NULL; carquet_status_t st = carquet_batch_reader_next(br, &b);
+        carquet_row_batch_t* b = NULL; if (s->shape == 7) GOMP_critical_start();      /* shape 7: the caller pulls batches inside its own unnamed `omp critical` (a team of consumers sharing one batch reader) */
+        carquet_status_t st = carquet_batch_reader_next(br, &b); if (s->shape == 7) GOMP_critical_end();
         h = mc_mix(h, (uint64_t)st);
         if (st != CARQUET_OK || !b) { dn += (size_t)snprintf(d + dn, dn < 150 ? 160 - dn : 0, "st%d;", st); break; }
         int64_t rows = carquet_row_batch_num_rows(b); int nc = carquet_row_batch_num_columns(b); h = mc_mix(h, (uint64_t)rows * 131 + (uint64_t)nc); rows_total += rows;
@@ -185,7 +190,7 @@ static void run_scenario(const scn_t* s) {
     run_exec(s, NULL, 0, 1, 0);
     if (TR->status != SCH_OK) { char key[120]; snprintf(key, sizeof key, "reference-run-failed.%s", MODE_N[s->mode]); mc_fail(key, "%s: %s", scn_desc(s), TR->msg); return; }
     D.expected = TR->outcome; snprintf(D.expected_detail, sizeof D.expected_detail, "%s", TR->detail);
-    char want[40]; snprintf(want, sizeof want, "rows=%lld", (long long)TOTAL_ROWS); if (!strstr(TR->detail, want)) mc_harness_error("%s: single-threaded run did not deliver the file: [%s]", scn_desc(s), TR->detail);
+    char want[40]; snprintf(want, sizeof want, "rows=%lld", (long long)TOTAL_ROWS); if (TOTAL_ROWS < 0) { if (!strstr(TR->detail, "st")) mc_harness_error("%s: the single-threaded run of the damaged file reports no error: [%s]", scn_desc(s), TR->detail); } else if (!strstr(TR->detail, want)) mc_harness_error("%s: single-threaded run did not deliver the file: [%s]", scn_desc(s), TR->detail);
     /* discovery: default schedule with the detector on until the promoted set is stable, then the search; restart if the search promotes more */
     if (D.detect) for (int i = 0; i < 8; i++) { run_exec(s, NULL, 0, 0, 1); N_EXEC--; if (TR->status != SCH_OK || !collect_races()) break; memcpy(RACY, PEND, sizeof RACY); NRACY = NPEND; }
     int rounds = 0;
@@ -206,10 +211,11 @@ static void enumerate(void) {
     int maxbound = 3;
     for (int bound = 0; bound <= maxbound; bound++) {
         char st[64]; snprintf(st, sizeof st, "deviation-bound-%d", bound); mc_stage(st);
-        for (int kind = 0; kind < 2; kind++) for (int mode = 0; mode < 4; mode++) for (int ci = 0; ci < 5; ci++) for (int nti = 0; nti < 6; nti++) for (int bsi = 0; bsi < 2; bsi++) for (int shape = 0; shape < 6; shape++) {
+        for (int kind = 0; kind < 2; kind++) for (int mode = 0; mode < 4; mode++) for (int ci = 0; ci < 5; ci++) for (int nti = 0; nti < 6; nti++) for (int bsi = 0; bsi < 2; bsi++) for (int shape = 0; shape < 8; shape++) {
             static const int NTA[] = { 2, 3, 4, 8, 16, 1 }; int nt = NTA[nti];
             scn_t s = { kind, mode, CODECS[ci], nt, bsi ? 12 : 4, shape, bound };
             if (nt == 1) continue;
+            if (shape >= 6 && !(kind == 0 && nt <= 3 && ci <= 2 && bound <= 1 && mode != 3 && (shape == 6 || (bsi == 1 && mode == 0)))) continue;      /* 6: a damaged page (the error must be reported under every schedule); 7: the caller inside its own critical section */
             if (mode == 3 && !(kind == 1 && nt == 2 && shape == 0 && bsi == 1 && ci <= 1 && bound <= 2)) continue;      /* mixed I/O paths: two independent readers, up to two deviations */
             if (ci >= 3 && (bound > 1 || nt > 3 || bsi == 0 || (shape != 0 && shape != 3) || (kind == 1 && (nt != 2 || shape != 0)))) continue;      /* GZIP and LZ4: whole-page batches, 2-3 threads, two shapes, c <= 1 */
             if (bound == 3 && !(kind == 0 && mode == 0 && nt == 2 && ((shape == 5 && ci == 1 && bsi == 1) || (mc_thorough() && shape == 0 && ci == 0 && bsi == 0)))) continue;     /* three deviations: the two-column large-page file (a failed prefetch is retried in the main region, so a wrong result needs a third switch) */
